@@ -196,4 +196,34 @@ def fixed_programs():
                 p.emit([p.call(_co(p, "resume"), [p.id("c"), p.num(30)])]),
                 p.emit([p.call(_co(p, "resume"), [p.id("c"), p.num(40)])])]
     mk(locals_survive)
+    # host functions as coroutine bodies (accepted by gopher-lua as by Lua 5.2): results, errors, status afterwards
+    def host_body(body, args, via):
+        def build(p):
+            fn = {"select": lambda: p.id("select"), "gret": lambda: p.id("gret"), "type": lambda: p.id("type"), "error": lambda: p.id("error"),
+                  "pcall": lambda: p.id("pcall"), "yield": lambda: _co(p, "yield"), "tostring": lambda: p.id("tostring"),
+                  "wrapfn": lambda: p.call(_co(p, "wrap"), [p.func(["a"], p.block([p.local(["b"], [p.call(_co(p, "yield"), [p.bin("+", p.id("a"), p.num(1))])]), p.ret([p.id("b"), p.str("inner-done")])]))])}[body]()
+            A = lambda: [p.num(x) if isinstance(x, int) else (p.str(x) if x != "F" else p.func([], p.block([p.ret([p.str("from-F")])], ))) for x in args]
+            if via == "create":
+                ss = [p.local(["c"], [p.call(_co(p, "create"), [fn])]),
+                      p.emit([p.str("r1"), p.call(_co(p, "resume"), [p.id("c")] + A())]),
+                      p.emit([p.str("st"), p.call(_co(p, "status"), [p.id("c")]), p.call(_co(p, "running"), [])]),
+                      p.emit([p.str("r2"), p.call(_co(p, "resume"), [p.id("c"), p.num(41), p.num(42)])]),
+                      p.emit([p.str("st"), p.call(_co(p, "status"), [p.id("c")])]),
+                      p.emit([p.str("r3"), p.call(_co(p, "resume"), [p.id("c")])])]
+            else:
+                ss = [p.local(["w"], [p.call(_co(p, "wrap"), [fn])]),
+                      p.emit([p.str("w1"), p.call(p.id("pcall"), [p.id("w")] + A())]),
+                      p.emit([p.str("run"), p.call(_co(p, "running"), [])]),
+                      p.emit([p.str("w2"), p.call(p.id("pcall"), [p.id("w"), p.num(41), p.num(42)])]),
+                      p.emit([p.str("w3"), p.call(p.id("pcall"), [p.id("w")])])]
+            # the same from inside a Lua coroutine (the resumer is not the main thread)
+            return ss + [p.emit([p.str("nested"), p.call(_co(p, "resume"), [p.call(_co(p, "create"), [p.func([], p.block(
+                [p.local(["c2"], [p.call(_co(p, "create"), [fn])]),
+                 p.emit([p.str("in"), p.call(_co(p, "resume"), [p.id("c2")] + A()), p.call(_co(p, "status"), [p.id("c2")])]),
+                 p.ret([p.call(_co(p, "status"), [p.call(_co(p, "running"), [])])])]))])])])]
+        mk(build)
+    for body, args in (("select", [2, "a", "b", "c"]), ("select", ["#", 1, 2]), ("gret", [2, 7, 8, 9]), ("gret", [0]), ("type", [5]), ("type", []),
+                       ("error", ["boom"]), ("error", []), ("pcall", ["F", 1]), ("yield", [5, 6]), ("yield", []), ("tostring", [12]), ("wrapfn", [10])):
+        for via in ("create", "wrap"):
+            host_body(body, args, via)
     return out
